@@ -145,7 +145,7 @@ fn build_route(route: usize, metric: DistanceMetric, dim: usize, data: &[Vec<f32
             let cfg = EngCfg {
                 dim,
                 metric,
-                capacity: n + 16,
+                capacity: n + n / 4 + 16,
                 snapshot_interval: n / 3 + 1,
                 max_wal: 1 << 30,
                 fsync: FsyncPolicy::Never,
@@ -154,9 +154,24 @@ fn build_route(route: usize, metric: DistanceMetric, dim: usize, data: &[Vec<f32
                 hot_hard: 1,
             };
             {
-                let b = HnswBackend::with_persistence(dim, metric, vec![], vec![], n + 16, &dir, FsyncPolicy::Never, cfg.snapshot_interval, 1 << 30)?;
+                // sparse external ids (2i+1) with junk on even ids deleted before the restart: the recovered
+                // id space is neither dense nor equal to the internal slot numbering
+                let b = HnswBackend::with_persistence(dim, metric, vec![], vec![], n + n / 4 + 16, &dir, FsyncPolicy::Never, cfg.snapshot_interval, 1 << 30)?;
+                let mut junk = Vec::new();
                 for (i, v) in data.iter().enumerate() {
-                    b.insert(i as u64, v.clone(), HashMap::new())?;
+                    b.insert(2 * i as u64 + 1, v.clone(), HashMap::new())?;
+                    if i % 4 == 0 {
+                        let mut j = v.clone();
+                        j.reverse();
+                        if j.iter().all(|x| *x == 0.0) {
+                            j[0] = 1.0;
+                        }
+                        b.insert(2 * i as u64, j, HashMap::new())?;
+                        junk.push(2 * i as u64);
+                    }
+                }
+                for j in junk {
+                    b.delete(j)?;
                 }
             }
             recover_backend(&cfg, &dir)
@@ -273,7 +288,12 @@ pub fn run(args: &Args) -> Out {
                     // recall with tie tolerance: a returned doc counts if it is in the true top-10 or exactly ties the 10th distance
                     let t: BTreeSet<usize> = truth[qi].0.iter().copied().collect();
                     for r in &r1 {
-                        let id = r.doc_id as usize;
+                        // route 3 uses external id 2i+1 for data[i]; an even id there is deleted junk (a miss)
+                        let id = if route == 3 {
+                            if r.doc_id % 2 == 1 { (r.doc_id as usize - 1) / 2 } else { usize::MAX }
+                        } else {
+                            r.doc_id as usize
+                        };
                         if t.contains(&id) || (id < data.len() && ref_distance(*metric, q, &data[id]) <= truth[qi].1) {
                             hit += 1;
                             hit_group[qi % 2] += 1;
